@@ -12,6 +12,7 @@ import (
 	"crypto/x509"
 	"errors"
 	"fmt"
+	"github.com/opencontainers/go-digest"
 	"strings"
 	"sync"
 	"sync/atomic"
@@ -29,15 +30,16 @@ import (
 )
 
 type vecRev struct {
-	mu      sync.Mutex
-	vec     []result.Result
-	err     bool
-	methods int // variant of method annotations
-	srvErr  bool
-	calls   int
-	chain   []*x509.Certificate
-	st      time.Time
-	noSrv   bool // verdicts only: no per-server results at all (a validator need not consult servers to know)
+	mu             sync.Mutex
+	vec            []result.Result
+	err            bool
+	methods        int // variant of method annotations
+	srvErr         bool
+	calls          int
+	chain          []*x509.Certificate
+	st             time.Time
+	errWithResults bool // the validator error comes TOGETHER with a (complete, well-formed) result vector
+	noSrv          bool // verdicts only: no per-server results at all (a validator need not consult servers to know)
 }
 
 func (r *vecRev) ValidateContext(ctx context.Context, o revocation.ValidateContextOptions) ([]*result.CertRevocationResult, error) {
@@ -46,7 +48,7 @@ func (r *vecRev) ValidateContext(ctx context.Context, o revocation.ValidateConte
 	r.chain = append([]*x509.Certificate(nil), o.CertChain...)
 	r.st = o.AuthenticSigningTime
 	r.mu.Unlock()
-	if r.err {
+	if r.err && !r.errWithResults {
 		return nil, errors.New("scripted validator failure")
 	}
 	out := make([]*result.CertRevocationResult, len(r.vec))
@@ -61,6 +63,9 @@ func (r *vecRev) ValidateContext(ctx context.Context, o revocation.ValidateConte
 			sr = nil
 		}
 		out[i] = &result.CertRevocationResult{Result: v, RevocationMethod: m, ServerResults: sr}
+	}
+	if r.err {
+		return out, errors.New("scripted validator failure (with results)")
 	}
 	return out, nil
 }
@@ -102,6 +107,7 @@ func main() {
 	vals := []result.Result{result.ResultOK, result.ResultNonRevokable, result.ResultUnknown, result.ResultRevoked, result.Result(9)}
 	desc := lib.Desc(ocispec.MediaTypeImageManifest, []byte("c05"))
 	payload := lib.Payload(desc)
+	blobDesc := lib.Desc("application/octet-stream", []byte("c05 blob"))
 	signTime := time.Now().Add(-48 * time.Hour).Truncate(time.Second)
 
 	type signed struct {
@@ -128,6 +134,7 @@ func main() {
 		for _, f := range formats {
 			for _, sc := range schemes {
 				s.raw[f+"|"+sc] = lib.MustCoreSign(lib.SignSpec{Format: f, Scheme: signature.SigningScheme(sc), Payload: payload, Signer: leaf, SigningTime: signTime})
+				s.raw[f+"|"+sc+"|blob"] = lib.MustCoreSign(lib.SignSpec{Format: f, Scheme: signature.SigningScheme(sc), Payload: lib.Payload(blobDesc), Signer: leaf, SigningTime: signTime})
 				// the same, demanding a verification plugin (which will own trusted-identity verification only)
 				s.raw[f+"|"+sc+"|plugin"] = lib.MustCoreSign(lib.SignSpec{Format: f, Scheme: signature.SigningScheme(sc), Payload: payload, Signer: leaf, SigningTime: signTime,
 					Ext: []signature.Attribute{{Key: lib.HdrPlugin, Critical: true, Value: "plug"}}})
@@ -190,9 +197,17 @@ func main() {
 		if c.Scheme != "notary.x509" {
 			storeType = "signingAuthority"
 		}
-		rv := &vecRev{vec: c.Vec, err: c.VErr, methods: c.Methods, srvErr: c.SrvErr, noSrv: i%5 == 2}
+		rv := &vecRev{vec: c.Vec, err: c.VErr, methods: c.Methods, srvErr: c.SrvErr, noSrv: i%5 == 2, errWithResults: i%2 == 1}
 		var dualCtxCalls int32
+		// every seventh case goes through the blob interface: the same level (with its revocation override) from a blob statement
+		blobPath := i%7 == 3 && !tiPlugin
+		if blobPath {
+			sig = set.raw[c.Format+"|"+c.Scheme+"|blob"]
+		}
 		opts := verifier.VerifierOptions{OCITrustPolicy: lib.OCIPolicy(c.L.SV(i), []string{storeType + ":x"}, []string{"*"}), RevocationTimestampingValidator: lib.OKRev{}}
+		if blobPath {
+			opts.BlobTrustPolicy = lib.BlobPolicy(c.L.SV(i), []string{storeType + ":x"}, []string{"*"})
+		}
 		if c.Legacy && i%3 == 0 {
 			opts.RevocationClient = dual{legacy{rv}, &dualCtxCalls}
 		} else if c.Legacy {
@@ -220,7 +235,14 @@ func main() {
 		if err != nil {
 			panic(err)
 		}
-		out, verr := v.Verify(context.Background(), desc, sig, notation.VerifierVerifyOptions{ArtifactReference: "r.io/a@" + desc.Digest.String(), SignatureMediaType: c.Format})
+		var out *notation.VerificationOutcome
+		var verr error
+		if blobPath {
+			r.Event("blob-interface")
+			out, verr = v.(notation.BlobVerifier).VerifyBlob(context.Background(), func(digest.Algorithm) (ocispec.Descriptor, error) { return blobDesc, nil }, sig, notation.BlobVerifierVerifyOptions{SignatureMediaType: c.Format})
+		} else {
+			out, verr = v.Verify(context.Background(), desc, sig, notation.VerifierVerifyOptions{ArtifactReference: "r.io/a@" + desc.Digest.String(), SignatureMediaType: c.Format})
+		}
 		key := fmt.Sprintf("%s|%s|%v|%v|%d|%v|%v|%s", c.Format, c.Scheme, c.Vec, c.VErr, c.Methods, c.SrvErr, c.Legacy, c.L)
 		if c.L.Rev == "skip" {
 			r.Eval("")
